@@ -119,6 +119,60 @@ def run_case(ctx, case_seed, i, n_variants):
           kind, mode, d, [(repr(it[1]), it[3], it[4]) for it in small][:4]),
           dict(info, base=base_text, variant=layout.render_with(toks, small, ts), variant_kind=kind, parser=mode,
                noise=[[it[1], it[2], it[3], it[4]] for it in small][:10]))
+  string_content_variants(ctx, toks, rng, info, n_sites=(3 if ctx.tier == "thorough" else 1), n_contents=(12 if ctx.tier == "thorough" else 5))
+
+
+HOSTILE_CONTENTS = [';', 'a;b', ')', '(', '[', '}', '{', ':-', ' :- ', '#', '# x', '/*', '*/', '/* c */', ' in ', 'distinct', 'combine ', 'if ',
+                    ' then ', ' else ', '\\', 'C:\\data\\', '\\(', '\\[x', 'a\\b', '\\\\', '\\)', '~', '|', '||', ',', ', b', '..r', '=>',
+                    "'", "it's", '->', '?', '`', '%s', '==', ' is null', 'import a.B;', '@Ground(P);', ':=', 'x']
+
+
+def string_content_variants(ctx, toks, rng, info, n_sites=2, n_contents=6):
+  """The contents of a double-quoted literal are data: replacing them by separators, brackets, comment markers,
+  keywords or backslashes must change nothing in the parsed program but that literal's value."""
+  sites = [i for i in range(0, len(toks), 2) if len(toks[i]) >= 2 and toks[i][0] == '"' and toks[i][-1] == '"' and not toks[i].startswith('"""')]
+  rng.shuffle(sites)
+  marker = 'zq9unique'
+  for i in sites[:n_sites]:
+    t0 = list(toks)
+    t0[i] = '"%s"' % marker
+    ref_text = syntaxgen.render(t0)
+    ref = {}
+    for mode in ('PY', 'CPP'):
+      k, rules, bad = c06.parse_one(ref_text, mode)
+      ref[mode] = treecmp.plain(rules, drop_heritage=True) if k == 'ok' else None
+    if ref['PY'] is None or ref['CPP'] is None:
+      continue
+    for content in rng.sample(HOSTILE_CONTENTS, n_contents):
+      t1 = list(toks)
+      t1[i] = '"%s"' % content
+      text = syntaxgen.render(t1)
+      ctx.count('string_content_variants')
+      if '\\' in content:
+        ctx.count('string_content_with_backslash')
+      for mode in ('PY', 'CPP'):
+        k, rules, bad = c06.parse_one(text, mode)
+        want = replace_string(ref[mode], marker, content)
+        if k == 'ok':
+          d = treecmp.first_difference(want, treecmp.plain(rules, drop_heritage=True))
+        else:
+          d = '%s: %s %s' % (k, bad.exc_type, (bad.message or '')[:160])
+        ctx.case(stable_hash([text, mode, 'content']), d is None)
+        if d is None:
+          ctx.count('string_content_equal_' + mode)
+          continue
+        ctx.violation(None, 'the contents %r of a double-quoted literal change what the %s parser reads: %s' % (content, mode, d),
+                      dict(info, base=ref_text, variant=text, variant_kind='string_content', content=content, parser=mode, token_index=i))
+
+
+def replace_string(tree, old, new):
+  if isinstance(tree, dict):
+    return {k: replace_string(v, old, new) for k, v in tree.items()}
+  if isinstance(tree, list):
+    return [replace_string(v, old, new) for v in tree]
+  if isinstance(tree, str) and old in tree:
+    return tree.replace(old, new)      # also inside names derived from source text (body-less combine fields)
+  return tree
 
 
 def check_spans(ctx, mode, rules, text, info, kind):
